@@ -168,7 +168,8 @@ fn find_numbers(text: &[u8]) -> Vec<(usize, usize)> {
     while i < text.len() {
         let c = text[i];
         let starts = c.is_ascii_digit() || (c == b'-' && i + 1 < text.len() && text[i + 1].is_ascii_digit());
-        let prev_ok = i == 0 || !(text[i - 1].is_ascii_alphanumeric() || text[i - 1] == b'_' || text[i - 1] == b'.');
+        // a number may follow an underscore: anchor names such as top_2 carry an index
+        let prev_ok = i == 0 || !(text[i - 1].is_ascii_alphanumeric() || text[i - 1] == b'.');
         if starts && prev_ok {
             let start = i;
             i += 1;
